@@ -26,6 +26,10 @@ cherab):
                             change, by mutating the profile state or through the public plasma / beam setters): every step =
                             the spectrum of a FRESH object with the step's settings (rtol 1e-13) and satisfies the closed-form
                             oracle (seq_judged:<Class>)
+  arg_alias               : MultipletLineShape / ZeemanMultiplet are built from caller-owned containers (C-contiguous float64
+                            ndarray or view of a larger buffer, nested lists; lists of component tuples); the caller modifying them after construction
+                            (every plain case) or between add_line calls (sequence step "caller-touches-...", for Stark: the
+                            caller integrating something else with the integrator it handed over) must not change the object
   pol_sum                 : pi + sigma = unpolarised, bin by bin (three calls on identical inputs)
   zero_width              : width-less line => a pre-filled spectrum is returned bit-identical
   adds                    : on a pre-filled spectrum the increment equals what is added to a zero spectrum
@@ -75,7 +79,7 @@ ASAN_MODULES = ['cherab.core.model.lineshape.gaussian', 'cherab.core.model.lines
 ASAN = dict(cases=6000, workers=8, timecap=240)
 QUICK = dict(cases=6500, workers=2, timecap=35)
 THOROUGH = dict(cases=600000, workers=16, timecap=600)
-REQUIRED = {"bins_gauss": 20000, "bins_stark": 5000, "total": 1500, "pol_sum": 10000, "zero_width": 60, "adds": 200,
+REQUIRED = {"arg_alias_cases": 100, "bins_gauss": 20000, "bins_stark": 5000, "total": 1000, "pol_sum": 10000, "zero_width": 60, "adds": 200,
             "judged:GaussianLine": 30, "judged:MultipletLineShape": 30, "judged:ZeemanTriplet": 30,
             "judged:ParametrisedZeemanTriplet": 30, "judged:ZeemanMultiplet": 30, "judged:StarkBroadenedLine": 60,
             "judged:BeamEmissionMultiplet": 30, "integrator_diff": 300, "bins_stark_user": 5000, "total_user": 60,
@@ -428,6 +432,9 @@ def _gen_sequence(case, rng, tier):
     if model == "BeamEmissionMultiplet":
         kinds.append("beam")
         probs.append(0.25)
+    if model in OWNED_ARGUMENT:
+        kinds.append("caller-touches-" + OWNED_ARGUMENT[model])
+        probs.append(0.4)
     probs = np.array(probs) / sum(probs)
     pol = ["pi", "sigma", "no"][int(rng.integers(3))] if family else "no"
     steps = [dict(changes=[], set={}, pol=pol, how="holder")]
@@ -814,8 +821,47 @@ def check_integrator(case, ctx):
     return q
 
 
-def build(case, polarisation, integrator=None):
-    """Real cherab objects for one case; returns (callable(spectrum) -> spectrum, element atomic weight, beam weight)."""
+# (Fortran-ordered (2, N) arrays are rejected by the constructor with "ndarray is not C-contiguous": no spectrum, not judged)
+CONTAINER_KINDS = ["ndarray-c-float64", "list", "ndarray-c-float64-view", "ndarray-c-float64"]
+OWNED_ARGUMENT = dict(MultipletLineShape="multiplet", ZeemanMultiplet="zeeman-component-lists", StarkBroadenedLine="integrator")
+
+
+def container_kind(case):
+    """Kind of caller-owned container the multiplet table is handed over in (a deterministic function of the case)."""
+    return CONTAINER_KINDS[case.get("prefill_seed", 0) % len(CONTAINER_KINDS)]
+
+
+def make_table(kind, table):
+    if kind == "list":
+        return [list(table[0]), list(table[1])]
+    a = np.array(table, dtype=np.float64)
+    if kind == "ndarray-c-float64-view":          # a contiguous (2, N) window of a larger caller-owned buffer
+        big = np.zeros((3, a.shape[1]))
+        big[1:] = a
+        return big[1:]
+    return np.ascontiguousarray(a)
+
+
+def scramble_table(t):
+    """The caller re-uses its own (2, N) container after handing it to a constructor: shifts wavelengths, rescales ratios."""
+    for j in range(len(t[0])):
+        t[0][j] = t[0][j] + 0.37
+        t[1][j] = t[1][j] * 3.0 + 0.01
+
+
+def scramble_lists(lists):
+    """The caller re-uses the lists it built a ZeemanStructure from."""
+    for i, lst in enumerate(lists):
+        if i % 2 == 0:
+            lst.clear()
+        else:
+            lst.reverse()
+            del lst[1:]
+
+
+def build(case, polarisation, integrator=None, mutate_args=False):
+    """Real cherab objects for one case; returns (callable(spectrum) -> spectrum, element atomic weight, beam weight).
+    mutate_args: after construction the caller-owned containers handed to the constructor are modified in place."""
     from raysect.core import Point3D, Vector3D
     from cherab.core import Plasma, Species, Maxwellian, Line, AtomicData, Beam
     from cherab.core.atomic import elements, ZeemanStructure
@@ -864,7 +910,10 @@ def build(case, polarisation, integrator=None):
     if model == "GaussianLine":
         obj = M.GaussianLine(line, lam0, species, plasma, ad)
     elif model == "MultipletLineShape":
-        obj = M.MultipletLineShape(line, lam0, species, plasma, ad, case["multiplet"])
+        table = make_table(container_kind(case), case["multiplet"])
+        obj = M.MultipletLineShape(line, lam0, species, plasma, ad, table)
+        if mutate_args:
+            scramble_table(table)
     elif model == "ZeemanTriplet":
         obj = M.ZeemanTriplet(line, lam0, species, plasma, ad, polarisation)
     elif model == "ParametrisedZeemanTriplet":
@@ -874,8 +923,10 @@ def build(case, polarisation, integrator=None):
             return [((lambda b, w=c["w"]: w[0] + w[1] * b + w[2] * b * b), (lambda b, r=c["r"]: max(0.0, r[0] + r[1] * b)))
                     for c in cs]
         zs = case["zs"]
-        obj = M.ZeemanMultiplet(line, lam0, species, plasma, ad,
-                                ZeemanStructure(lst(zs["pi"]), lst(zs["sigma_plus"]), lst(zs["sigma_minus"])), polarisation)
+        owned = [lst(zs["pi"]), lst(zs["sigma_plus"]), lst(zs["sigma_minus"])]
+        obj = M.ZeemanMultiplet(line, lam0, species, plasma, ad, ZeemanStructure(*owned), polarisation)
+        if mutate_args:
+            scramble_lists(owned)
     elif model == "StarkBroadenedLine":
         if integrator is not None:
             obj = M.StarkBroadenedLine(line, lam0, species, plasma, ad, tuple(case["stark"]), integrator, polarisation)
@@ -928,6 +979,7 @@ class LiveModel:
         model = self.model = case["model"]
         self.pol = pol
         self.beam = None
+        self.owned = None
         if model == "BeamEmissionMultiplet":
             m = case["mse"]
             bel = getattr(elements, m["element"])
@@ -952,7 +1004,8 @@ class LiveModel:
         elif model == "GaussianLine":
             self.obj = M.GaussianLine(line, lam0, species, plasma, ad)
         elif model == "MultipletLineShape":
-            self.obj = M.MultipletLineShape(line, lam0, species, plasma, ad, case["multiplet"])
+            self.owned = make_table(container_kind(case), case["multiplet"])
+            self.obj = M.MultipletLineShape(line, lam0, species, plasma, ad, self.owned)
         elif model == "ZeemanTriplet":
             self.obj = M.ZeemanTriplet(line, lam0, species, plasma, ad, pol)
         elif model == "ParametrisedZeemanTriplet":
@@ -962,12 +1015,25 @@ class LiveModel:
                 return [((lambda b, w=c["w"]: w[0] + w[1] * b + w[2] * b * b), (lambda b, r=c["r"]: max(0.0, r[0] + r[1] * b)))
                         for c in cs]
             zs = case["zs"]
-            self.obj = M.ZeemanMultiplet(line, lam0, species, plasma, ad,
-                                         ZeemanStructure(lst(zs["pi"]), lst(zs["sigma_plus"]), lst(zs["sigma_minus"])), pol)
+            self.owned = [lst(zs["pi"]), lst(zs["sigma_plus"]), lst(zs["sigma_minus"])]
+            self.obj = M.ZeemanMultiplet(line, lam0, species, plasma, ad, ZeemanStructure(*self.owned), pol)
         elif model == "StarkBroadenedLine":
-            self.obj = M.StarkBroadenedLine(line, lam0, species, plasma, ad, tuple(case["stark"]), polarisation=pol)
+            # a caller-owned integrator with the default settings (the fresh objects use the default argument)
+            from cherab.core.math.integrators import GaussianQuadrature
+            self.owned = GaussianQuadrature()
+            self.obj = M.StarkBroadenedLine(line, lam0, species, plasma, ad, tuple(case["stark"]), self.owned, pol)
         else:
             raise ValueError("unknown model %r" % model)
+
+    def caller_touches_arguments(self, count):
+        """Between two add_line calls the caller modifies / uses the containers and helper objects it owns."""
+        if self.model == "MultipletLineShape":
+            scramble_table(self.owned)
+        elif self.model == "ZeemanMultiplet":
+            scramble_lists(self.owned)
+        elif self.model == "StarkBroadenedLine":
+            self.owned.integrand = _test_function(count % N_TEST_FUNCTIONS)
+            self.owned(-0.5 - count, 1.5)
 
     def apply(self, eff, pol, how):
         h = self.h
@@ -1017,6 +1083,8 @@ def run_sequence(case, ctx):
         eff.update(step["set"])
         pol = step["pol"]
         live.apply(eff, pol, step["how"])
+        if any(c.startswith("caller-touches-") for c in step["changes"]):
+            live.caller_touches_arguments(i)
         win = eff["window"]
         s = live.call(eff, Spectrum(win["min"], win["max"], win["bins"]))
         got = np.array(s.samples, dtype=float)
@@ -1024,6 +1092,8 @@ def run_sequence(case, ctx):
         call, aw, bw = build(eff, pol)
         fresh = np.array(call(Spectrum(win["min"], win["max"], win["bins"])).samples, dtype=float)
         what = "+".join(step["changes"]) if step["changes"] else ("first-call" if i == 0 else "nothing")
+        if model == "MultipletLineShape" and "caller-touches-multiplet" in step["changes"]:
+            what += "(%s)" % container_kind(eff)
         ctx.mon("seq_steps")
         ok = ctx.close(got, fresh, "sequence:%s:differs-from-fresh-object:after-%s" % (model, what),
                        "a line-shape object used for several calls gives a different spectrum than a fresh object "
@@ -1271,6 +1341,18 @@ def _run_plain(case, ctx, live=None):
         ctx.close(got["pi"] + got["sigma"], got["no"], "%s:pi+sigma!=unpolarised%s" % (model, tag),
                   "pi- and sigma-polarised spectra do not add up to the unpolarised spectrum", rtol=1e-12,
                   atol=1e-13 * float(np.max(np.abs(got["no"]))) + 1e-300, monitor="pol_sum")
+
+    # ---- constructor arguments are copied: the caller modifying its own containers afterwards changes nothing -------------
+    if live is None and model in ("MultipletLineShape", "ZeemanMultiplet"):
+        pol = pols[-1]
+        call, _, _ = build(case, pol, integ, mutate_args=True)
+        s = call(Spectrum(win["min"], win["max"], win["bins"]))
+        arg = OWNED_ARGUMENT[model] + ("(%s)" % container_kind(case) if model == "MultipletLineShape" else "")
+        ctx.mon("arg_alias_cases")
+        ctx.close(np.asarray(s.samples, dtype=float), got[pol], "constructor-aliases-caller-argument:%s:%s" % (model, arg),
+                  "the caller modified the container it had handed to the constructor and the spectrum of the already "
+                  "constructed object changed", rtol=1e-13, atol=1e-14 * float(np.max(np.abs(got[pol]))) + 1e-300,
+                  monitor="arg_alias", total_before=float(got[pol].sum() * delta), total_after=float(np.sum(s.samples) * delta))
 
     # ---- the model *adds* to the spectrum --------------------------------------------------------------------------------
     if case["prefill"] and live is None:
